@@ -1,3 +1,152 @@
-import Sbdf.Slice
+/-
+  C01 — Write-then-read round trip preserves the whole table.
+  Composition of C03 (the writer calls emit the Spec bytes of the canonical physical layout) and
+  C04 (the reader decodes every well-formed physical layout), plus the facts that make the
+  canonical layout of an API-built table well formed.
+-/
+import Sbdf.Props.C03
+import Sbdf.Props.C04
+import Sbdf.Props.C10
 namespace Sbdf.C01
+open Spec
+
+/-! ### building one column back from the canonical name list -/
+
+/-- the entries the reader rebuilds for a column: one per name-list row whose value is present,
+    in name-list order, carrying the row's default -/
+def rebuilt : List NameRow → List (Option Obj) → List MdEntry
+  | r :: rs, some v :: os => ⟨cstr r.name, some v, r.dflt⟩ :: rebuilt rs os
+  | _ :: rs, none :: os => rebuilt rs os
+  | _, _ => []
+
+/-- the reader's column builder succeeds and yields exactly `rebuilt`, provided the present
+    values are singletons of the row's type and the row names are pairwise different -/
+theorem buildCol_ok (names : List NameRow) (vals : List (Option Obj)) (m : Md)
+    (hmod : m.modifiable = true)
+    (hlen : vals.length = names.length)
+    (hdist : names.Pairwise (fun a b => Md.nameEq a.name b.name = false))
+    (hfresh : ∀ r ∈ names, ∀ e ∈ m.entries, Md.nameEq e.name r.name = false)
+    (hval : ∀ i (h1 : i < names.length) (h2 : i < vals.length) v, vals[i] = some v →
+      v.count = 1 ∧ ∀ d, names[i].dflt = some d → d.tid = v.tid ∧ d.count = 1) :
+    buildCol names vals m = .ok ⟨m.entries ++ rebuilt names vals, true⟩ := by
+  induction names generalizing vals m with
+  | nil =>
+    cases vals with
+    | nil => cases m; simp_all [buildCol, rebuilt]
+    | cons o os => simp at hlen
+  | cons r rs ih =>
+    cases vals with
+    | nil => simp at hlen
+    | cons o os =>
+      simp only [List.length_cons, Nat.add_right_cancel_iff] at hlen
+      rw [List.pairwise_cons] at hdist
+      have hval' : ∀ i (h1 : i < rs.length) (h2 : i < os.length) v, os[i] = some v →
+          v.count = 1 ∧ ∀ d, rs[i].dflt = some d → d.tid = v.tid ∧ d.count = 1 := by
+        intro i h1 h2 v hv
+        have := hval (i + 1) (by simp; omega) (by simp; omega) v (by simpa using hv)
+        simpa using this
+      cases o with
+      | none =>
+        simp only [buildCol, rebuilt]
+        exact ih os m hmod hlen hdist.2 (fun r' hr' => hfresh r' (by simp [hr'])) hval'
+      | some v =>
+        have h0 := hval 0 (by simp) (by simp) v (by simp)
+        simp only [List.getElem_cons_zero] at h0
+        have hadd : Md.add r.name v r.dflt m = .ok ⟨m.entries ++ [⟨cstr r.name, some v, r.dflt⟩], true⟩ := by
+          unfold Md.add
+          have hex : m.exists_ r.name = false := by
+            simp only [Md.exists_, Md.find, Option.isSome_eq_false_iff, Option.isNone_iff_eq_none, List.find?_eq_none]
+            intro e he; simpa using hfresh r (by simp) e he
+          have htm : Md.dfltTypeMismatch v r.dflt = false := ((C10.dflt_checks v r.dflt).1).mpr (fun d hd => (h0.2 d hd).1)
+          have hbc : Md.dfltBadCount r.dflt = false := ((C10.dflt_checks v r.dflt).2).mpr (fun d hd => (h0.2 d hd).2)
+          cases m with | mk me mm =>
+          simp only at hmod hex ⊢
+          subst hmod
+          simp [htm, hbc, h0.1, hex]
+        simp only [buildCol, hadd, rebuilt]
+        have := ih os ⟨m.entries ++ [⟨cstr r.name, some v, r.dflt⟩], true⟩ rfl hlen hdist.2 (by
+          intro r' hr' e he
+          simp only [List.mem_append, List.mem_singleton] at he
+          rcases he with h | h
+          · exact hfresh r' (by simp [hr']) e h
+          · subst h; simp only; rw [C11.nameEq_cstr]; exact hdist.1 r' hr') hval'
+        simpa using this
+
+/-! ### the table-level entries survive unchanged -/
+
+theorem triples_roundtrip (es : List MdEntry) (h : ∀ e ∈ es, ∃ v, e.value = some v) :
+    (C03.tableTriples es).map (fun e => (⟨e.1, some e.2.1, e.2.2⟩ : MdEntry)) = es := by
+  induction es with
+  | nil => rfl
+  | cons e es ih =>
+    obtain ⟨v, hv⟩ := h e (by simp)
+    simp only [C03.tableTriples, List.filterMap_cons, hv, Option.map_some, List.map_cons]
+    have := ih (fun x hx => h x (by simp [hx]))
+    simp only [C03.tableTriples] at this
+    rw [this]
+    cases e; simp_all
+
+/-! ### the round trip -/
+
+/-- C01: for every table the writers can represent (metadata `tm` whose column metadata folds to
+    `kept`, slices of caller-built column slices), whose canonical layout is within the reader's
+    allocation limits (`Ok`, `TSFits`): the bytes produced by the writer calls, read back by the
+    caller loop (any trailing bytes, any column subset), give OK on every call, the same table
+    metadata entries, per column the metadata rebuilt in name-list order, every slice with every
+    cell and property array exactly as written, and then end-of-table at the end of the file. -/
+theorem file_roundtrip (c : Cfg) (tm : TM) (slices : List (List CS)) (kept : List MdEntry) (cols : List Md)
+    (hfold : foldCols (tm.cols.flatMap (·.entries)) = .ok kept)
+    (htab : C03.MdWritable tm.table) (hcols : ∀ col ∈ tm.cols, C03.MdWritable col)
+    (hkept : ∀ k ∈ kept, ∀ d, k.dflt = some d → Writable d)
+    (hsl : ∀ s ∈ slices, ∀ x ∈ s, x.Writable)
+    (hok : (C03.canonPhys tm kept).Ok c cols)
+    (hn : ∀ s ∈ slices, s.length = tm.cols.length) (hf : ∀ s ∈ slices, TSFits c s)
+    (sub : Option (List Bool)) (rest : Bytes) (fuel : Nat) (hfuel : slices.length < fuel) :
+    ∃ bytes, Emits (writeFile c ⟨tm, slices.map (fun s => ⟨s.map some⟩)⟩) bytes ∧
+      readFileF c sub fuel (bytes ++ rest).toArray =
+        ⟨.ok (1, 0), some (.ok ⟨⟨tm.table.entries, false⟩, cols.map Md.freeze⟩),
+         slices.map (fun s => ⟨maskFrom sub 0 s⟩), some (.tableEnd bytes.length)⟩ := by
+  refine ⟨C04.file c (C03.canonPhys tm kept) slices, C03.file_bytes c tm slices kept hfold htab hcols hkept hsl, ?_⟩
+  have hn' : ∀ s ∈ slices, s.length = (C03.canonPhys tm kept).cols.length := by
+    intro s hs; simp [C03.canonPhys, hn s hs]
+  rw [C04.reads_wellformed c _ cols slices hok hn' hf sub rest fuel hfuel]
+  have : (C03.canonPhys tm kept).table.map (fun e => (⟨e.1, some e.2.1, e.2.2⟩ : MdEntry)) = tm.table.entries :=
+    triples_roundtrip tm.table.entries (fun e he => by obtain ⟨⟨v, hv, _⟩, _⟩ := htab e he; exact ⟨v, hv⟩)
+  simp only [C04.logicalTM, this]
+
+/-- with no subset every column of every slice comes back -/
+theorem full_read_returns_all (s : List CS) : maskFrom none 0 s = s.map some := maskFrom_none 0 s
+
+/-- If the writer cannot represent the input — same-named column metadata whose type or default
+    differ — it returns INCORRECT_METADATA from the table-metadata call instead of producing a
+    file: the status of `sbdf_tm_write` is then not OK. -/
+theorem unrepresentable_is_refused (c : Cfg) (tm : TM) (e : Status)
+    (hfold : foldCols (tm.cols.flatMap (·.entries)) = .error e)
+    (htab : C03.MdWritable tm.table) :
+    (writeTM c tm).st = .incorrectMd := by
+  have he := C03.fold_error_status _ e hfold
+  subst he
+  obtain ⟨hemit, _⟩ := C03.emits_tableEntries c tm.table.entries htab
+  unfold writeTM
+  simp only [hfold]
+  have h1 : Emits (secWrite 2 ++ writeInt32 c tm.table.cnt ++ WOut.seqAll (tm.table.entries.map (writeTableEntry c)) ++
+      writeInt32 c tm.cols.length) _ :=
+    Emits.append (Emits.append (Emits.append (emits_sec 2) (emits_int32 c _)) hemit) (emits_int32 c _)
+  rw [(WOut.append_ok h1.1).2]; rfl
+
+end Sbdf.C01
+
+namespace Sbdf.C01
+/-- non-vacuity (a concrete instance of the conclusion, evaluated by the kernel): a table with one
+    column carrying a `Name`, one slice with a run-length column of three int rows -/
+example :
+    let colMd : Md := ⟨[⟨[78, 97, 109, 101], some ⟨10, [[99]]⟩, none⟩], false⟩
+    let tm : TM := ⟨⟨[], false⟩, [colMd]⟩
+    let cs : CS := ⟨.rle 3 [1, 0] ⟨2, [[1, 0, 0, 0], [2, 0, 0, 0]]⟩, 0, []⟩
+    let w := writeFile {} ⟨tm, [⟨[some cs]⟩]⟩
+    w.st = .ok ∧
+    readFileF {} none 5 w.bytes.toArray =
+      ⟨.ok (1, 0), some (.ok tm), [⟨[some cs]⟩], some (.tableEnd w.bytes.length)⟩ := by
+  refine ⟨rfl, ?_⟩
+  rfl
 end Sbdf.C01
